@@ -502,6 +502,8 @@ impl Scope {
     /// Push a new scope onto the stack.
     pub fn push_scope(&mut self) {
         self.variables.push(HashMap::new());
+        #[cfg(feature = "verif")]
+        crate::verif::emit(|| r#"{"e":"a.push"}"#.to_string());
     }
 
     /// Push the scope of the main function onto the stack.
@@ -515,6 +517,8 @@ impl Scope {
         assert!(self.is_topmost(), "Current scope is not topmost");
         self.push_scope();
         self.is_main = true;
+        #[cfg(feature = "verif")]
+        crate::verif::emit(|| r#"{"e":"a.enter_main"}"#.to_string());
     }
 
     /// Pop the current scope from the stack.
@@ -524,6 +528,8 @@ impl Scope {
     /// The stack is empty.
     pub fn pop_scope(&mut self) {
         self.variables.pop().expect("Stack is empty");
+        #[cfg(feature = "verif")]
+        crate::verif::emit(|| r#"{"e":"a.pop"}"#.to_string());
     }
 
     /// Pop the scope of the main function from the stack.
@@ -536,6 +542,8 @@ impl Scope {
         assert!(self.is_main, "Current scope is not inside main function");
         self.pop_scope();
         self.is_main = false;
+        #[cfg(feature = "verif")]
+        crate::verif::emit(|| r#"{"e":"a.leave_main"}"#.to_string());
         assert!(
             self.is_topmost(),
             "Current scope is not nested in topmost scope"
@@ -548,6 +556,14 @@ impl Scope {
     ///
     /// The stack is empty.
     pub fn insert_variable(&mut self, identifier: Identifier, ty: ResolvedType) {
+        #[cfg(feature = "verif")]
+        crate::verif::emit(|| {
+            format!(
+                r#"{{"e":"a.insert_var","x":{},"ty":{}}}"#,
+                crate::verif::js(identifier.as_inner()),
+                crate::verif::type_json(&ty)
+            )
+        });
         self.variables
             .last_mut()
             .expect("Stack is empty")
@@ -560,6 +576,22 @@ impl Scope {
             .iter()
             .rev()
             .find_map(|scope| scope.get(identifier))
+    }
+
+    /// Record the result of a variable lookup.
+    #[cfg(feature = "verif")]
+    fn verif_get_variable(&self, identifier: &Identifier) {
+        crate::verif::emit(|| match self.get_variable(identifier) {
+            Some(ty) => format!(
+                r#"{{"e":"a.get_var","x":{},"found":true,"ty":{}}}"#,
+                crate::verif::js(identifier.as_inner()),
+                crate::verif::type_json(ty)
+            ),
+            None => format!(
+                r#"{{"e":"a.get_var","x":{},"found":false,"ty":{{"k":"none"}}}}"#,
+                crate::verif::js(identifier.as_inner())
+            ),
+        });
     }
 
     /// Resolve a type with aliases to a type without aliases.
@@ -659,6 +691,14 @@ impl Scope {
 
     /// Track a call expression with its span.
     pub fn track_call<S: AsRef<Span>>(&mut self, span: &S, name: TrackedCallName) {
+        #[cfg(feature = "verif")]
+        crate::verif::emit(|| {
+            format!(
+                r#"{{"e":"a.track","id":{},"known":{}}}"#,
+                self.call_tracker.verif_next_id(),
+                self.call_tracker.get_cmr(span.as_ref()).is_some()
+            )
+        });
         self.call_tracker.track_call(*span.as_ref(), name);
     }
 }
@@ -929,15 +969,33 @@ impl AbstractSyntaxTree for SingleExpression {
                 scope
                     .insert_witness(name.clone(), ty.clone())
                     .with_span(from)?;
+                #[cfg(feature = "verif")]
+                crate::verif::emit(|| {
+                    format!(
+                        r#"{{"e":"a.insert_wit","n":{},"ty":{}}}"#,
+                        crate::verif::js(name.as_inner()),
+                        crate::verif::type_json(ty)
+                    )
+                });
                 SingleExpressionInner::Witness(name.clone())
             }
             parse::SingleExpressionInner::Parameter(name) => {
                 scope
                     .insert_parameter(name.shallow_clone(), ty.clone())
                     .with_span(from)?;
+                #[cfg(feature = "verif")]
+                crate::verif::emit(|| {
+                    format!(
+                        r#"{{"e":"a.insert_param","n":{},"ty":{}}}"#,
+                        crate::verif::js(name.as_inner()),
+                        crate::verif::type_json(ty)
+                    )
+                });
                 SingleExpressionInner::Parameter(name.shallow_clone())
             }
             parse::SingleExpressionInner::Variable(identifier) => {
+                #[cfg(feature = "verif")]
+                scope.verif_get_variable(identifier);
                 let bound_ty = scope
                     .get_variable(identifier)
                     .ok_or(Error::UndefinedVariable(identifier.clone()))
